@@ -1,6 +1,6 @@
 SPECIFICATION Spec
 CONSTANTS
-  Prune = FALSE
+  Prune = TRUE
   Dev_h12 = TRUE
   Dev_h13 = TRUE
   Dev_t127 = TRUE
